@@ -97,6 +97,9 @@ func (h *transportHandle) Close() error {
 	}
 
 	err := h.Client.Goodbye()
+	if err != nil {
+		err = fmt.Errorf("failed to say goodbye to plugin %q: %v", h.name, err)
+	}
 	if closer, ok := h.Transport.(io.Closer); ok {
 		err = multierr.Append(err, closer.Close())
 	}
